@@ -255,7 +255,7 @@ func marshalOf(x any) ([]byte, error) {
 }
 
 // checkValue runs every oracle of the property on abstract value v of target t.
-func checkValue(c *core.Ctx, su *setup, t *target, v *tlref.Value, stale func(f tlref.Field) *tlref.Value) error {
+func checkValue(c *core.Ctx, su *setup, t *target, v *tlref.Value, stale func(f tlref.Field) *tlref.Value, form int, formRnd tlref.Rand) error {
 	s := su.schema
 	var want []byte
 	var err error
@@ -272,20 +272,28 @@ func checkValue(c *core.Ctx, su *setup, t *target, v *tlref.Value, stale func(f 
 	if err := tlbind.ToGo(s, t.typeExpr(), v, gv, &tlbind.Options{Absent: stale}); err != nil {
 		return fmt.Errorf("harness error: populating %v: %v", t.goType, err)
 	}
+	// the two Go representations of an empty byte string / vector (nil, non-nil of length 0) are the same
+	// TL value and have the same layout
+	nils, _ := setSliceForm(gv, form, formRnd)
+	goForm := ""
+	if nils > 0 {
+		goForm = fmt.Sprintf("\nGo value: %d of its empty byte strings / vectors are nil slices (%s)", nils, sliceFormNames[form])
+		c.Note("nil_slices", nils)
+	}
 	hasMarshal := !(t.kind == tRequest && len(t.con.Fields) == 0)
 
 	// (1a) MarshalTL == reference bytes, through the method and through tl.Marshal
 	if hasMarshal {
 		got, err := marshalOf(gv.Interface())
 		if err != nil {
-			return fmt.Errorf("%s: MarshalTL of %s: %v", t.name, v, err)
+			return fmt.Errorf("%s: MarshalTL of %s: %v%s", t.name, v, err, goForm)
 		}
 		if !bytes.Equal(got, want) {
-			return fmt.Errorf("%s: MarshalTL differs from the layout the schema defines (library / reference): %s\nvalue %s", t.name, diffAt(got, want), v)
+			return fmt.Errorf("%s: MarshalTL differs from the layout the schema defines (library / reference): %s\nvalue %s%s", t.name, diffAt(got, want), v, goForm)
 		}
 		got2, err := tl.Marshal(gv.Addr().Interface())
 		if err != nil || !bytes.Equal(got2, want) {
-			return fmt.Errorf("%s: tl.Marshal(pointer) differs from MarshalTL: err=%v %s", t.name, err, diffAt(got2, want))
+			return fmt.Errorf("%s: tl.Marshal(pointer) differs from MarshalTL: err=%v %s%s", t.name, err, diffAt(got2, want), goForm)
 		}
 	} else if len(want) != 0 {
 		return fmt.Errorf("harness error: function without fields encodes to %d bytes", len(want))
@@ -348,7 +356,7 @@ func checkValue(c *core.Ctx, su *setup, t *target, v *tlref.Value, stale func(f 
 			return fmt.Errorf("%s: building the payload the way method %s does: %v", f.Name, mi.name, err)
 		}
 		if !bytes.Equal(payload, req) {
-			return fmt.Errorf("%s: payload built by method %s differs from function id + arguments (library / reference): %s\nvalue %s", f.Name, mi.name, diffAt(payload, req), v)
+			return fmt.Errorf("%s: payload built by method %s differs from function id + arguments (library / reference): %s\nvalue %s%s", f.Name, mi.name, diffAt(payload, req), v, goForm)
 		}
 		tag, name, val, err := liteclient.LiteapiRequestDecoder(req)
 		if err != nil {
@@ -428,6 +436,12 @@ func refBytes(su *setup, t *target, v *tlref.Value) []byte {
 }
 
 func drawAndCheck(c *core.Ctx, su *setup, t *target, r tlref.Rand, o *tlref.GenOpts) error {
+	return drawAndCheckForm(c, su, t, r, o, -1)
+}
+
+// drawAndCheckForm: form < 0 draws the Go representation of the empty slices (one case in four non-nil
+// everywhere, two in four nil everywhere, one in four drawn per slice).
+func drawAndCheckForm(c *core.Ctx, su *setup, t *target, r tlref.Rand, o *tlref.GenOpts, form int) error {
 	var v *tlref.Value
 	if t.kind == tUnion {
 		v = su.schema.Draw(r, t.typeExpr(), o)
@@ -441,10 +455,17 @@ func drawAndCheck(c *core.Ctx, su *setup, t *target, r tlref.Rand, o *tlref.GenO
 		}
 		c.Class("absent conditional fields hold stale Go values")
 	}
+	if form < 0 {
+		form = [4]int{slicesMade, slicesNil, slicesNil, slicesMixed}[r.Intn("slice.form", 4)]
+	}
 	c.Note("declaration", t.name)
 	c.Note("value", v.String())
+	c.Note("empty_go_slices", sliceFormNames[form])
 	classify(c, su, t, v, refBytes(su, t, v))
-	return checkValue(c, su, t, v, stale)
+	if emptyPresentCond(v) > 0 {
+		c.Class("present conditional bytes/vector field is empty, Go slices " + sliceFormNames[form])
+	}
+	return checkValue(c, su, t, v, stale, form, r)
 }
 
 // c10/value: rapid-drawn declaration and value.
@@ -697,5 +718,5 @@ func TestEnum(t *testing.T) {
 }
 
 func TestReplay(t *testing.T) {
-	core.Replay(t, valueCheck, eachCheck, modesCheck, lenCheck, handCheck, methodCheck, genCheck, oversizeProbe, vecCheck)
+	core.Replay(t, valueCheck, eachCheck, modesCheck, lenCheck, handCheck, methodCheck, genCheck, oversizeProbe, vecCheck, emptyCheck, nilPtrCheck, foreignCheck)
 }
